@@ -210,6 +210,23 @@ pub fn run(ctx: &Ctx) {
     );
     // long frames (beyond 256 bytes) on large capacities, whole and chunked
     let nl = ctx.tier.pick(40_000, 400_000);
+    // frames carrying many-element values and very large blobs (capacities 8192 / 90000), whole and in 1-2 cuts
+    ctx.par_proptest(
+        "big-value-frames",
+        ctx.tier.pick(1_500, 20_000),
+        || {
+            (arb_big_value_stream(), any::<bool>(), proptest::collection::vec(any::<u32>(), 0..3)).prop_map(|((n, shape, stream), r, raw)| {
+                let mut cuts: Vec<usize> = raw.iter().map(|x| 1 + (*x as usize) % stream.len().max(2).saturating_sub(1)).collect();
+                cuts.sort();
+                cuts.dedup();
+                ((n, shape, stream), cuts, r)
+            })
+        },
+        |((n, shape, stream), cuts, use_ref), l| {
+            l.class("big-value-frame");
+            check_history(*n, shape, stream, cuts, *use_ref, l)
+        },
+    );
     ctx.par_proptest(
         "long-frames",
         nl,
